@@ -134,6 +134,17 @@ Section C09.
       eapply non_proposal_keeps_lists; eassumption.
   Qed.
 
+  (* C09_remaining_entry_takes_precedence: a joining-list entry that re-uses the ADDRESS of a remaining
+     member (a validly self-signed "shadow": self-signatures do not cover the address) can never be
+     the key a packet is checked against: whenever the applied terms list a remaining member with the
+     sender's address, the signature verifies under the key of an entry of the REMAINING list *)
+  Theorem C09_remaining_entry_takes_precedence : forall p md t,
+    gp_md p = Some md -> has_addr (t_remaining t) (md_addr md) = true ->
+    verify_message verify key_ok p t = None ->
+    exists signer, In signer (t_remaining t) /\ p_addr signer = md_addr md
+      /\ verify (p_key signer) (message_for_signing (md_beacon md) (gp_body p) t) (md_sig md) = true.
+  Proof. intros; eapply remaining_entry_takes_precedence; eassumption. Qed.
+
   Theorem C09_partial_stored_keys : forall now s p s' o,
     pkstep now s p = (s', o) -> s' <> s -> (forall t, gp_body p <> PProposal t) ->
     exists next, current s' = Some next
@@ -152,6 +163,7 @@ Print Assumptions C09_fresh_caveat.
 Print Assumptions C09_members_authenticate_proposals.
 Print Assumptions C09_partial.
 Print Assumptions C09_partial_addresses.
+Print Assumptions C09_remaining_entry_takes_precedence.
 Print Assumptions C09_partial_stored_keys.
 
 (* ---------- concrete witnesses ---------- *)
@@ -224,6 +236,16 @@ Example C09_execute_witness :
   /\ (let '(s', o) := w_step_c w_s2c w_exec_by_b in (o, st_state (get_current w_B s'))) = (Rej EOnlyLeaderCanExecute, Proposed)
   /\ (let '(s', o) := w_step_c w_s2c w_exec_by_a in (o, st_state (get_current w_B s'))) = (OK, Left).
 Proof. vm_compute. repeat split; reflexivity. Qed.
+
+(* shadow joiner (regression example): the epoch-2 terms re-use a's address in the joining list under
+   the attacker's key; a proposal claiming a but signed with the planted key is refused, a's own is
+   accepted *)
+Definition w_terms_shadow : terms :=
+  mkT w_B 3 2 1000 (Some w_a) 5 30 w_sch 0 [9] [w_x_as_a] [w_a; w_b; w_c] [].
+Example C09_shadow_witness :
+  snd (w_step w_s1 (w_pkt [97] [9; 9; 9; 9] 2 (PProposal w_terms_shadow))) = Rej ESigInvalid
+  /\ snd (w_step w_s1 (w_pkt [97] [1; 1; 1; 1] 6 (PProposal w_terms_shadow))) = OK.
+Proof. vm_compute. split; reflexivity. Qed.
 
 (* framing caveat: without the fixed-length assumption the bytes do NOT determine the terms - a
    signer can produce one signature for two different participant lists *)
